@@ -91,6 +91,61 @@ def random_nfa(rng, k, S, eps="", prefix="s", density=None, total=False):
     return NFA(set(Q), set(S), delta, Q[0], F, eps)
 
 
+def late_split_dfa(rng, m=None, probes=None):
+    """dozens of states that split LATE: m anchor states f_i told apart early (distinct accepting-successor
+    patterns), a sink, and second-level states that differ only in which anchors they reach - they stay in one
+    class until the partition already has more than m classes (scale beyond the exhaustive universes)"""
+    from gambatools.dfa import DFA
+    m = m or rng.choice([12, 13, 14, 15])
+    probes = probes or rng.choice([40, 50, 60])
+    S = "abcd"
+    f = ["f%d" % i for i in range(m)]
+    Q = set(f) | {"sink"}
+    delta = {("sink", s): "sink" for s in S}
+    for i in range(m):
+        for k, s in enumerate(S):
+            delta[f[i], s] = f[0] if ((i + 1) >> k) & 1 else "sink"
+    pairs = rng.sample([(i, j) for i in range(m) for j in range(m)], min(probes, m * m))
+    for (i, j) in pairs:
+        x = "x%d_%d" % (i, j)
+        Q.add(x)
+        delta[x, "a"], delta[x, "b"] = f[i], f[j]
+        delta[x, "c"] = delta[x, "d"] = "sink" if rng.random() < 0.8 else x
+    # a 4-ary tree of router states makes every second-level state reachable
+    level = ["x%d_%d" % pr for pr in pairs]
+    n = 0
+    while len(level) > 1:
+        nxt = []
+        for k in range(0, len(level), 4):
+            r = "r%d" % n
+            n += 1
+            Q.add(r)
+            kids = level[k:k + 4]
+            for i, s_ in enumerate(S):
+                delta[r, s_] = kids[min(i, len(kids) - 1)]
+            nxt.append(r)
+        level = nxt
+    return DFA(Q, set(S), delta, level[0], set(f))
+
+
+def chain_nfa(rng, k, S, eps="", prefix="s"):
+    """k states threaded by ONE long epsilon path (k-1 moves, random order) plus a few symbol moves:
+    closures that need many rounds / deep recursion (sizes 5-16: beyond the exhaustive universes)"""
+    from gambatools.nfa import NFA
+    Q = names(k, prefix)
+    order = Q[:]
+    rng.shuffle(order)
+    delta = defaultdict(set)
+    for p, q in zip(order, order[1:]):
+        delta[p, eps].add(q)
+    for _ in range(rng.randint(0, 3)):
+        delta[rng.choice(Q), rng.choice(sorted(S))].add(rng.choice(Q))
+    F = {order[-1]} if rng.random() < 0.7 else {rng.choice(Q)}
+    if rng.random() < 0.3:
+        delta = dict(delta)
+    return NFA(set(Q), set(S), delta, order[0] if rng.random() < 0.7 else rng.choice(Q), F, eps)
+
+
 def rename_fa(A, mapping):
     """renamed copy of a DFA/NFA (a second source of hash-order variety)"""
     from gambatools.dfa import DFA
